@@ -449,14 +449,14 @@ FASTOR_INLINE __m512 _mm512_neg_ps(__m512 a) {
 #ifdef FASTOR_AVX512DQ_IMPL
     return _mm512_xor_ps(a, _mm512_set1_ps(-0.f));
 #else
-    return _mm512_sub_ps(_mm512_set1_ps(0.f),a);
+    return _mm512_castsi512_ps(_mm512_xor_si512(_mm512_castps_si512(a), _mm512_castps_si512(_mm512_set1_ps(-0.f))));
 #endif
 }
 FASTOR_INLINE __m512d _mm512_neg_pd(__m512d a) {
 #ifdef FASTOR_AVX512DQ_IMPL
     return _mm512_xor_pd(a, _mm512_set1_pd(-0.0));
 #else
-    return _mm512_sub_pd(_mm512_set1_pd(0.0),a);
+    return _mm512_castsi512_pd(_mm512_xor_si512(_mm512_castpd_si512(a), _mm512_castpd_si512(_mm512_set1_pd(-0.0))));
 #endif
 }
 #endif
